@@ -1178,9 +1178,7 @@ def _oauth_signature(
     base_elems = []
     base_elems.append(method.upper())
     base_elems.append(normalized_url)
-    base_elems.append(
-        "&".join(f"{k}={_oauth_escape(str(v))}" for k, v in sorted(parameters.items()))
-    )
+    base_elems.append(_oauth_normalize_parameters(parameters))
     base_string = "&".join(_oauth_escape(e) for e in base_elems)
 
     key_elems = [escape.utf8(consumer_token["secret"])]
@@ -1209,9 +1207,7 @@ def _oauth10a_signature(
     base_elems = []
     base_elems.append(method.upper())
     base_elems.append(normalized_url)
-    base_elems.append(
-        "&".join(f"{k}={_oauth_escape(str(v))}" for k, v in sorted(parameters.items()))
-    )
+    base_elems.append(_oauth_normalize_parameters(parameters))
 
     base_string = "&".join(_oauth_escape(e) for e in base_elems)
     key_elems = [escape.utf8(urllib.parse.quote(consumer_token["secret"], safe="~"))]
@@ -1222,6 +1218,15 @@ def _oauth10a_signature(
 
     hash = hmac.new(key, escape.utf8(base_string), hashlib.sha1)
     return binascii.b2a_base64(hash.digest())[:-1]
+
+
+def _oauth_normalize_parameters(parameters: dict[str, Any]) -> str:
+    # RFC 5849 section 3.4.1.3.2: both names and values are percent-encoded
+    # first, then the pairs are sorted by their encoded form.
+    pairs = sorted(
+        (_oauth_escape(str(k)), _oauth_escape(str(v))) for k, v in parameters.items()
+    )
+    return "&".join(f"{k}={v}" for k, v in pairs)
 
 
 def _oauth_escape(val: str | bytes) -> str:
